@@ -34,13 +34,19 @@ FlatConsole(cs) ==
   IF cs = <<>> THEN <<>>
   ELSE LET c == Head(cs) IN [i \in 1..c[5] |-> <<<<c[1], c[2]>>, c[3][i]>>] \o FlatConsole(Tail(cs))
 
+\* unknown base rendition (after an "odd" list): a slot that every candidate agrees on was set since, and is owed
+CapKnownOk(S, pair) ==
+  LET c == CHOOSE c \in S : TRUE IN
+  /\ ((\A a \in S : a.fg = c.fg) => pair[1] = Cap16(c.fg))
+  /\ ((\A a \in S : a.bg = c.bg) => pair[2] = Cap16(c.bg))
+
 \* match the bytes of one visible character
 RECURSIVE MatchBytes(_, _, _, _)
 MatchBytes(x, bs, obs, k) ==        \* <<x', k', ok>>
   IF bs = <<>> THEN <<x, k, TRUE>>
   ELSE IF k > Len(obs) THEN <<x, k, FALSE>>
   ELSE IF obs[k][2] # Head(bs) THEN <<x, k, FALSE>>
-  ELSE IF x.wild THEN MatchBytes(x, Tail(bs), obs, k + 1)
+  ELSE IF x.wild THEN (IF CapKnownOk(x.S, obs[k][1]) THEN MatchBytes(x, Tail(bs), obs, k + 1) ELSE <<x, k, FALSE>>)
   ELSE LET S2 == {g \in x.S : CapPair(g) = obs[k][1]} IN
        IF S2 = {} THEN <<x, k, FALSE>> ELSE MatchBytes([x EXCEPT !.S = S2], Tail(bs), obs, k + 1)
 
